@@ -522,9 +522,8 @@ class POXCore (EventMixin):
       components = list(components)
     else:
       try:
-        _ = components[0]
         components = list(components)
-      except:
+      except TypeError:
         components = [components]
     if name is None:
       #TODO: Use inspect here instead
